@@ -62,7 +62,10 @@ Certified(p) ==      \* the code's predicates (see VSSAgg.ImplCertified)
 (* a verifier that was dealt another threshold or another polynomial is, as far as session ids go, in another
    session (the id is computed from the deal's commitments and T): the others refuse its response and it refuses
    theirs (its aggregator tracks the id of what it was dealt) *)
-InSession(p) == p = D \/ kind[p] \in {"good", "badshare"}
+Sess(p) == IF p = D \/ kind[p] \in {"good", "badshare"} THEN 0             \* this session (polynomial A)
+           ELSE IF kind[p] \in {"otherpoly", "othersession"} THEN 1           \* the dealer's other polynomial B
+           ELSE 2 + p                                                        \* tlow: an id nobody else has
+InSession(p) == Sess(p) = 0
 SidOK(i) == InSession(i)
 
 Record(tb, i, s) == IF tb[i] = "none" THEN [tb EXCEPT ![i] = s] ELSE tb      \* one response per verifier
@@ -84,8 +87,8 @@ Deal(i, k) ==
   /\ LET s == IF k \in {"good", "othersession"} THEN "app" ELSE "comp"     \* othersession is a valid deal of another session
          own == [tab[i] EXCEPT ![i] = s]
          \* pending responses are processed in increasing index order; they are all distinct indices
-         filled == [j \in V |-> IF j \in pend[i] /\ own[j] = "none" /\ SidOK(j) /\ k \in {"good", "badshare"}
-                                 THEN st[j] ELSE own[j]] IN
+         mine == IF k \in {"good", "badshare"} THEN 0 ELSE IF k \in {"otherpoly", "othersession"} THEN 1 ELSE 2 + i
+         filled == [j \in V |-> IF j \in pend[i] /\ own[j] = "none" /\ Sess(j) = mine THEN st[j] ELSE own[j]] IN
      /\ kind' = [kind EXCEPT ![i] = k]
      /\ st' = [st EXCEPT ![i] = s]
      /\ thr' = [thr EXCEPT ![i] = IF k = "tlow" THEN 1 ELSE T]
@@ -98,7 +101,7 @@ Deal(i, k) ==
 Bcast(i) ==
   /\ Room /\ st[i] # "none" /\ ~bc[i]
   /\ bc' = [bc EXCEPT ![i] = TRUE]
-  /\ tab' = [p \in P |-> IF p # i /\ Has(p) /\ SidOK(i) /\ InSession(p) THEN Record(tab[p], i, st[i]) ELSE tab[p]]
+  /\ tab' = [p \in P |-> IF p # i /\ Has(p) /\ Sess(p) = Sess(i) THEN Record(tab[p], i, st[i]) ELSE tab[p]]
   /\ pend' = [p \in V |-> IF p # i /\ ~Has(p) THEN pend[p] \cup {i} ELSE pend[p]]
   /\ dj' = [dj EXCEPT ![i] = SidOK(i) /\ st[i] = "comp" /\ tab[D][i] = "none"]
   /\ UNCHANGED <<kind, st, thr, bad, jst, wseen, tmo, early>>
@@ -160,7 +163,7 @@ Spec == Init /\ [][Next]_vars
 -----------------------------------------------------------------------------
 (* ground truth in this model: every message is genuine, so "i approved" = st[i] = "app" and
    "i's complaint was correctly justified" = jst[i] = "correct" *)
-Poly(p) == IF p # D /\ kind[p] \in {"otherpoly", "othersession"} THEN "B" ELSE "A"
+Poly(p) == Sess(p)
 ApprovedOrJustified == {i \in V : st[i] = "app" \/ (st[i] = "comp" /\ jst[i] = "correct")}
 CertifiedSound ==
   \A p \in P : Certified(p) =>
